@@ -29,6 +29,8 @@ def dec(s):
         return np.array(s[1], dtype=np.int64)
     if k == "m":
         return np.array(s[1], dtype=bool)
+    if k == "lb":                       # a boolean mask spelled as a plain Python list
+        return [bool(b) for b in s[1]]
     if k == "t":
         return tuple(dec(x) for x in s[1:])
     raise ValueError(f"bad selector {s!r}")
@@ -54,6 +56,8 @@ def src(s):
         return f"np.array({list(s[1])}, dtype=np.int64)"
     if k == "m":
         return f"np.array({[bool(x) for x in s[1]]}, dtype=bool)"
+    if k == "lb":
+        return repr([bool(x) for x in s[1]])
     if k == "t":
         return "(" + ", ".join(src(x) for x in s[1:]) + ",)"
     return repr(s)
@@ -97,6 +101,8 @@ def row_selectors(n, steps=(None, 1, 2, 3, -1, -2, -3), list_len=2, int_kinds=("
         yield ["a", [0, -(n + 1)]]
     for t in itertools.product([0, 1], repeat=n):
         yield ["m", list(t)]
+        if n > 0:
+            yield ["lb", list(t)]     # the same mask as a plain list of bools (numpy: still a mask)
     yield ["m", [1] * (n + 1)]    # mask of the wrong length
     if n > 1:
         yield ["m", [1] * (n - 1)]   # (an EMPTY boolean selector is treated like an empty list: selects nothing)
